@@ -65,6 +65,29 @@ theorem initialize_sizes_are_the_codes (page : Nat) (s s' : MP) (sz num : Nat) (
     s'.listCnt = (CimbaModel.Generated.Mempool.initialize_sizes page s sz num).listCnt :=
   initPool_sizes_eq page s s' sz num hp hov h
 
+/-- the loop that threads a fresh chunk in `cmi_mempool_expand` (trip count and stride re-extracted from the C AST)
+    is the model's: `incr_num - 1` link steps of `obj_sz / 8` words, then the NULL terminator — for every chunk
+    population `incr_num ≥ 1`, including chunks of exactly one object -/
+theorem expand_loop_is_the_codes (s : MP) (hnum : 0 < s.incrNum) (hn : s.incrNum < 2 ^ 32)
+    (hs : s.objSz / 8 < 2 ^ 32) :
+    CimbaModel.Generated.Mempool.expand_links s = s.incrNum - 1 ∧
+    CimbaModel.Generated.Mempool.expand_stride s = s.objSz / 8 :=
+  expand_loop_eq s hnum hn hs
+
+/-- chunks that hold exactly ONE object (object larger than half the chunk): expanding puts exactly that one object
+    on the free list, its link is NULL, nothing else in the new chunk is handed out later -/
+theorem expand_single_object_chunk {cfg : Cfg} (hcfg : CfgOK cfg) {s : MP} {live : List Addr} (h : Inv cfg s [] live)
+    (h1 : s.incrNum = 1) :
+    ∃ s', expand cfg s = .ok s' ∧ Inv cfg s' [(s.mem.size, 0)] live ∧ s'.nextObj = some (s.mem.size, 0) ∧
+      s'.mem.get s.mem.size 0 = .link none := by
+  obtain ⟨s', h2, h3, _⟩ := expand_inv hcfg h
+  rw [h1] at h3
+  simp only [objsFrom] at h3
+  obtain ⟨hd, nx, hl, hr⟩ := h3.chain
+  have : nx = none := hr
+  subst this
+  exact ⟨s', h2, h3, hd, hl⟩
+
 /-! ### live objects: aligned, inside their chunk with `obj_sz` bytes, pairwise disjoint -/
 
 theorem alloc_distinct_aligned {cfg : Cfg} (hcfg : CfgOK cfg) {s : Sys} (h : Good cfg s) {base : Nat → Nat}
@@ -186,6 +209,15 @@ theorem expandDefective_faults_small :
 example : faultOf (run cfgSmall (newStatic 8 1) [.alloc, .alloc, .alloc]) = none := by decide
 example : liveOf (run cfgSmall (newStatic 8 1) (List.replicate 9 .alloc)) =
     [(4, 0), (3, 1), (3, 0), (2, 1), (2, 0), (1, 1), (1, 0), (0, 1), (0, 0)] := by decide
+
+/-- one object per chunk (16-byte objects, 16-byte pages): every allocation opens a new chunk and returns its base;
+    after giving one back the next allocation reuses it instead of expanding -/
+example : liveOf (run cfgSmall (newStatic 16 1) (List.replicate 5 .alloc)) =
+    [(4, 0), (3, 0), (2, 0), (1, 0), (0, 0)] := by decide
+example : liveOf (run cfgSmall (newStatic 16 1) [.alloc, .alloc, .alloc, .free 1, .alloc, .alloc]) =
+    [(3, 0), (1, 0), (2, 0), (0, 0)] := by decide
+/-- objects larger than a page, one per two-page chunk (24-byte objects, chunks of 32 bytes) -/
+example : liveOf (run cfgSmall (newStatic 24 1) (List.replicate 3 .alloc)) = [(2, 0), (1, 0), (0, 0)] := by decide
 
 /-- a returned object is handed out again (LIFO), but only after it was returned -/
 example : liveOf (run cfgSmall (newStatic 8 1) [.alloc, .alloc, .free 1, .alloc]) = [(0, 0), (0, 1)] := by decide
